@@ -379,4 +379,19 @@ Proof.
   pose proof (executed_histories_keep_inv ops id hk) as HI. split; [apply (inv_cap _ _ _ HI)|apply (inv_nodup _ _ _ HI)].
 Qed.
 
+(* C18, second clause: before it is signalled the kill switch changes nothing -- a history in which it is never
+   signalled runs identically with and without a kill switch registered (same worlds, same observations) *)
+Lemma run_sop_hk id i w o : o <> SKill -> run_sop BUF id i true w o = run_sop BUF id i false w o.
+Proof. destruct o; intros H; try reflexivity. congruence. Qed.
+
+Theorem kill_switch_inert : forall ops id i w,
+  Forall (fun op => decode_sop op <> SKill) ops ->
+  run_srv_ops BUF id i true w ops = run_srv_ops BUF id i false w ops.
+Proof.
+  induction ops as [|op r IH]; intros id i w Hall; cbn [run_srv_ops]; [reflexivity|].
+  inversion Hall as [|? ? H1 H2]; subst.
+  rewrite !run_srv_op_sop. rewrite (run_sop_hk id i w _ H1).
+  destruct (run_sop BUF id i false w (decode_sop op)) as [w' ls]. rewrite (IH id (S i) w' H2). reflexivity.
+Qed.
+
 End RI3.
